@@ -30,6 +30,11 @@ class Facts:
         self.layouts = r['layouts']
         self.other_items = r['other_items']
         self._cg = None
+        self.flat = {}
+        try:
+            flatten_private_aggregates(self)
+        except Exception as e:      # never let the normalisation take the analysis down: without it the rules fail closed
+            self.flat_error = '%s: %s' % (type(e).__name__, e)
 
     # ---- lookup helpers
     def fn(self, path):
@@ -487,6 +492,8 @@ class Body:
                     base = base[1] if pr['f'] == '0' else ('overflow', base[1])
                 elif base[0] == 'tuple' and pr['f'].isdigit() and int(pr['f']) < len(base[1]):
                     base = base[1][int(pr['f'])]
+                elif pr.get('of') in self.facts.flat and base[0] == 'field' and isinstance(base[2], str):
+                    base = ('field', base[1], base[2] + '.' + pr['f'])      # field of a flattened private sub-object
                 else:
                     base = ('field', base, pr['f'])
             elif 'idx' in pr:
@@ -870,7 +877,10 @@ def hcanon(e, env=None):
             return ('const', int(e['bool']))
         return ('lit', e.get('str') or e.get('lit'))
     if k == 'field':
-        return ('field', hcanon(e['x'], env), e['name'])
+        b = hcanon(e['x'], env)
+        if e.get('of') in FLAT_ADTS and isinstance(b, tuple) and b and b[0] == 'field' and isinstance(b[2], str):
+            return ('field', b[1], b[2] + '.' + e['name'])      # field of a flattened private sub-object
+        return ('field', b, e['name'])
     if k == 'bin':
         op = {'+': 'Add', '-': 'Sub', '*': 'Mul', '/': 'Div', '%': 'Rem', '<': 'Lt', '<=': 'Le',
               '>': 'Gt', '>=': 'Ge', '==': 'Eq', '!=': 'Ne', '&&': 'And', '||': 'Or', '&': 'BitAnd',
@@ -1244,12 +1254,25 @@ def call_uses(body, flow):
 # --------------------------------------------------------------------------- pure helper inlining (HIR canon)
 
 
+def is_debug_assert_stmt(st):
+    """`debug_assert!(..)` / `debug_assert_eq!(..)`: `if <cfg literal> { .. panic .. }` from a macro expansion, without
+    assignments"""
+    e = st.get('e') if st.get('k') == 'expr' else None
+    if not isinstance(e, dict) or e.get('k') != 'if' or 'else' in e:
+        return False
+    c = e.get('cond')
+    if not (isinstance(c, dict) and c.get('k') == 'lit' and 'bool' in c and c.get('exp')):
+        return False
+    return not hir_find(e['then'], lambda m: m.get('k') in ('assign', 'assignop'))
+
+
 def simple_expr_fn(fn):
-    """(param ids, tail expr) if the fn body is a single expression over plainly bound parameters"""
+    """(param ids, tail expr) if the fn body is a single expression over plainly bound parameters (debug assertions
+    in front of it do not count)"""
     h = fn.hir
     v = strip_refs(h['value'])
     if v.get('k') == 'block':
-        if v.get('stmts') or v.get('tail') is None or v.get('unsafe'):
+        if any(not is_debug_assert_stmt(st) for st in v.get('stmts', [])) or v.get('tail') is None or v.get('unsafe'):
             return None
         v = v['tail']
     ids = []
@@ -1560,3 +1583,156 @@ def self_helper(adt):
     def pick(g, t):
         return g.impl_self_adt == adt and not g.impl_trait and not g.reachable
     return pick
+
+
+# --------------------------------------------------------------------------- private aggregates inside the work objects
+
+WORK_ADTS = ('rate::encoder_work::EncoderWork', 'rate::decoder_work::DecoderWork')
+FLAT_ADTS = set()      # union over the fact sets loaded in this process (hcanon has no facts argument)
+
+
+def flatten_private_aggregates(facts):
+    """A private struct used as a field of a work object (a group of counters, a newtype around the bitmap) is a matter of
+    representation.  The program is normalised as if its fields were fields of the work object itself, named `f.g`:
+    the ADT table, MIR places (direct chains and, through canonical forms, chains through a borrowed sub-object),
+    whole-struct stores of an aggregate literal (split per field), HIR field expressions; the inherent methods of such
+    structs are inlined at their call sites.  The shard store (the type that hands out ShardsRefMut) is not flattened:
+    it is a component with rules of its own."""
+    stores = set()
+    for f in facts.fns.values():
+        if f.impl_self_adt and not f.impl_trait and 'ShardsRefMut' in (f.output or ''):
+            stores.add(f.impl_self_adt)
+    flat = {}
+
+    def consider(ty):
+        a = facts.adts.get(ty)
+        if a is None or ty in flat or ty in stores or ty in WORK_ADTS:
+            return
+        if a.get('kind') != 'struct' or a.get('reachable') or len(a.get('variants', [])) != 1:
+            return
+        flat[ty] = [(fl['name'], fl['ty']) for fl in a['variants'][0]['fields']]
+        for _, t in flat[ty]:
+            consider(t)
+    for w in WORK_ADTS:
+        a = facts.adts.get(w)
+        if a is None:
+            continue
+        for v in a['variants']:
+            for fl in v['fields']:
+                consider(fl['ty'])
+    if not flat:
+        return
+    facts.flat = flat
+    FLAT_ADTS.update(flat)
+    # ---- ADT table of the work objects
+    def leaves(name, ty):
+        if ty in flat:
+            out = []
+            for g, t in flat[ty]:
+                out.extend(leaves(name + '.' + g, t))
+            return out
+        return [(name, ty)]
+    for w in WORK_ADTS:
+        a = facts.adts.get(w)
+        if a is None:
+            continue
+        for v in a['variants']:
+            nf = []
+            for fl in v['fields']:
+                for (n, t) in leaves(fl['name'], fl['ty']):
+                    d = dict(fl)
+                    d['name'], d['ty'] = n, t
+                    nf.append(d)
+            v['fields'] = nf
+    # ---- MIR
+    pick = lambda g, t: g.impl_self_adt in flat and not g.impl_trait
+    new_mir = {}
+    for p, fn in list(facts.fns.items()):
+        mir, inl = inline_mir(fn.body.mir, facts, p, pick, depth=3)
+        new_mir[p] = _flatten_mir(mir, flat)
+    for p, fn in facts.fns.items():
+        fn.x['mir'] = new_mir[p]
+        fn.body = Body(facts, new_mir[p], p)
+        fn.hir = _flatten_hir(fn.hir, flat)
+        fn.x['hir'] = fn.hir
+
+
+def _merge_proj(pr, flat):
+    out = []
+    for e in pr:
+        if isinstance(e, dict) and 'f' in e and out and isinstance(out[-1], dict) and 'f' in out[-1] and e.get('of') in flat and out[-1].get('ty') == e.get('of'):
+            prev = dict(out[-1])
+            prev['f'] = prev['f'] + '.' + e['f']
+            prev['ty'] = e.get('ty')
+            out[-1] = prev
+        else:
+            out.append(e)
+    return out
+
+
+def _flatten_mir(mir, flat):
+    def walk(n):
+        if isinstance(n, list):
+            return [walk(x) for x in n]
+        if not isinstance(n, dict):
+            return n
+        if 'l' in n and 'p' in n and isinstance(n['p'], list):
+            d = dict(n)
+            d['p'] = _merge_proj(n['p'], flat)
+            return d
+        return {k: (walk(v) if isinstance(v, (dict, list)) else v) for k, v in n.items()}
+    out = dict(mir)
+    blocks = walk(mir['blocks'])
+    # whole-struct store of an aggregate literal: one store per field
+    agg_def = {}
+    for b in blocks:
+        for st in b['stmts']:
+            if st['k'] == 'assign' and not st['lhs']['p'] and st['rv']['k'] == 'agg' and st['rv'].get('agg') == 'adt' and st['rv'].get('adt') in flat:
+                agg_def.setdefault(st['lhs']['l'], []).append(st)
+    for b in blocks:
+        ns = []
+        for st in b['stmts']:
+            done = False
+            if st['k'] == 'assign' and st['lhs']['p'] and st['rv']['k'] == 'use':
+                last = st['lhs']['p'][-1]
+                src = st['rv']['op'].get('move') or st['rv']['op'].get('copy')
+                if isinstance(last, dict) and last.get('ty') in flat and src is not None and not src['p'] and len(agg_def.get(src['l'], [])) == 1:
+                    a = agg_def[src['l']][0]['rv']
+                    for fname, op in zip(a.get('fields', []), a.get('ops', [])):
+                        lhs = dict(st['lhs'])
+                        pr = list(st['lhs']['p'])
+                        l2 = dict(last)
+                        l2['f'] = last['f'] + '.' + fname
+                        l2['ty'] = dict(flat[last['ty']]).get(fname)
+                        pr[-1] = l2
+                        lhs['p'] = pr
+                        s2 = dict(st)
+                        s2['lhs'] = lhs
+                        s2['rv'] = {'k': 'use', 'op': op}
+                        ns.append(s2)
+                    done = True
+            if not done:
+                ns.append(st)
+        b['stmts'] = ns
+    out['blocks'] = blocks
+    return out
+
+
+def _flatten_hir(n, flat):
+    if isinstance(n, list):
+        return [_flatten_hir(x, flat) for x in n]
+    if not isinstance(n, dict):
+        return n
+    out = {k: (_flatten_hir(v, flat) if isinstance(v, (dict, list)) else v) for k, v in n.items()}
+    if out.get('k') == 'field' and out.get('of') in flat:
+        x = out.get('x')
+        x0 = x
+        while isinstance(x0, dict) and x0.get('k') in ('addrof',) :
+            x0 = x0.get('x')
+        if isinstance(x0, dict) and x0.get('k') == 'field':
+            m = dict(x0)
+            m['name'] = x0['name'] + '.' + out['name']
+            if 'ty' in out:
+                m['ty'] = out['ty']
+            return m
+    return out
